@@ -508,6 +508,8 @@ func buildIncCases(root string) (cases []*incCase, nGraphs int) {
 		&incCase{label: "entry unclean absolute", files: base("b.dae"), entry: "%R/conf/sub/../a.dae", expect: "ok", order: []string{"A", "B"}},
 		&incCase{label: "entry relative, include absolute", files: base("'%R/conf/b.dae'"), chdir: ".", entry: "conf/a.dae", expect: "ok-or-err", order: []string{"A", "B"}},
 		&incCase{label: "entry not .dae", files: base(), entry: "conf/x.conf", expect: "err"},
+		&incCase{label: "entry not .dae (suffix .dae.bak)", files: base(), entry: "conf/b.dae.bak", expect: "err"},
+		&incCase{label: "entry not .dae (no dot)", files: base(), entry: "conf/xdae", expect: "err"},
 		&incCase{label: "entry is a directory", files: base(), entry: "conf/dir.dae", expect: "err"},
 		&incCase{label: "entry missing", files: base(), entry: "conf/nosuch.dae", expect: "err"},
 	)
@@ -545,7 +547,7 @@ func legIncludeShard(c *shardCtx) {
 	c.res.Extra["matrix_cases"] = int64(len(cases) - nGraphs)
 	inotifyOK := true
 	for i, cs := range cases {
-		if i%c.of != c.shard {
+		if i%c.of != c.shard || c.over() {
 			continue
 		}
 		c.res.Evaluations++
